@@ -707,6 +707,108 @@ fn q_star(a: &[i64]) -> Result<String, String> {
   })
 }
 
+macro_rules! name_types {
+  ($($t:ty),* $(,)?) => {
+    pub const NAME_TYPES: &[&str] = &[$(stringify!($t)),*];
+
+    fn name_of(ty: usize, n: isize) -> String {
+      let mut k = 0usize;
+      $(
+        if ty == k {
+          return <$t>::from_index(n).get_name();
+        }
+        k += 1;
+      )*
+      let _ = k;
+      String::new()
+    }
+
+    /// number of names in the table of type `ty`
+    pub fn name_table_size(ty: usize) -> usize {
+      let mut k = 0usize;
+      $(
+        if ty == k {
+          return <$t>::from_index(0).get_size();
+        }
+        k += 1;
+      )*
+      let _ = k;
+      0
+    }
+
+    fn by_name(ty: usize, name: &str) -> String {
+      let mut k = 0usize;
+      $(
+        if ty == k {
+          let x = <$t>::from_name(name);
+          return format!("{} {} {}", NAME_TYPES[ty], x.get_name(), x.get_index());
+        }
+        k += 1;
+      )*
+      let _ = k;
+      String::new()
+    }
+  };
+}
+
+name_types!(
+  tyme4rs::tyme::culture::Animal, tyme4rs::tyme::culture::Beast, Constellation, Direction, Duty, Element, God, tyme4rs::tyme::culture::Land, tyme4rs::tyme::culture::Luck, Phase,
+  tyme4rs::tyme::culture::Sixty, Sound, Taboo, Ten, Terrain, tyme4rs::tyme::culture::Twenty, Week, Zodiac, tyme4rs::tyme::culture::Zone,
+  tyme4rs::tyme::culture::dog::Dog, tyme4rs::tyme::culture::nine::Nine, tyme4rs::tyme::culture::plumrain::PlumRain, tyme4rs::tyme::culture::phenology::Phenology,
+  tyme4rs::tyme::culture::phenology::ThreePhenology, tyme4rs::tyme::culture::peng_zu::PengZuHeavenStem, tyme4rs::tyme::culture::peng_zu::PengZuEarthBranch,
+  tyme4rs::tyme::culture::ren::minor::MinorRen, tyme4rs::tyme::culture::star::nine::Dipper, NineStar, tyme4rs::tyme::culture::star::seven::SevenStar,
+  tyme4rs::tyme::culture::star::six::SixStar, tyme4rs::tyme::culture::star::ten::TenStar, tyme4rs::tyme::culture::star::twelve::Ecliptic, TwelveStar, TwentyEightStar,
+  HeavenStem, EarthBranch, SixtyCycle, tyme4rs::tyme::lunar::LunarSeason,
+);
+
+/// String-keyed constructors of all 39 name-table types: `from_name` with a name of the type's
+/// own table (taken from `from_index`), with garbage, with the empty string, or with a name
+/// taken from ANOTHER type's table (which may or may not exist in this one).
+/// a = [type, index, flavour, other type].
+fn q_name(a: &[i64]) -> Result<String, String> {
+  let ty = (a[0].rem_euclid(NAME_TYPES.len() as i64)) as usize;
+  let n = i(a[1]);
+  let name = match a[2] {
+    0 => name_of(ty, n),
+    1 => "无此名".to_string(),
+    2 => name_of((a[3].rem_euclid(NAME_TYPES.len() as i64)) as usize, n),
+    _ => String::new(),
+  };
+  Ok(by_name(ty, &name))
+}
+
+/// Other string-keyed entry points. a = [which, index, flavour, year].
+fn q_name2(a: &[i64]) -> Result<String, String> {
+  let n = i(a[1]);
+  let pick = |good: String| -> String {
+    match a[2] {
+      0 => good,
+      1 => "无此名".to_string(),
+      2 => Zodiac::from_index(n).get_name(),
+      _ => String::new(),
+    }
+  };
+  Ok(match a[0] {
+    0 => {
+      // Result-returning: a refusal by Err
+      let name = pick(SolarTerm::from_index(2000, n).get_name());
+      r_term(&SolarTerm::new(i(a[3]), &name)?)
+    }
+    1 => {
+      let name = pick(SolarTerm::from_index(2000, n).get_name());
+      r_term(&SolarTerm::from_name(i(a[3]), &name))
+    }
+    2 => {
+      let g = Gender::from_name(&pick(gender(n as i64 & 1).get_name()))?;
+      format!("{} {:?}", g, Gender::from_code(u(a[1])).map(|x| x.get_name()))
+    }
+    _ => {
+      let e = EightChar::new(&pick(SixtyCycle::from_index(n).get_name()), &SixtyCycle::from_index(n + 14).get_name(), &SixtyCycle::from_index(n + 27).get_name(), &SixtyCycle::from_index(n + 40).get_name());
+      format!("{} {}", r_ec(&e), join(&e.get_solar_times(i(a[3]), i(a[3]) + 60), |t| r_st(t)))
+    }
+  })
+}
+
 pub static KINDS: &[KindDef] = &[
   KindDef { name: "LM.from_ym", arity: 2, exec: q_lm_from_ym, family: FAM_LM, cost: 0 },
   KindDef { name: "LM.new", arity: 2, exec: q_lm_new, family: FAM_LM, cost: 0 },
@@ -770,6 +872,8 @@ pub static KINDS: &[KindDef] = &[
   KindDef { name: "TERM.get", arity: 3, exec: q_term_get, family: FAM_SD, cost: 0 },
   KindDef { name: "LW.step", arity: 5, exec: q_lw_step, family: FAM_LW, cost: 1 },
   KindDef { name: "SCD.hour", arity: 4, exec: q_scd_hour, family: FAM_SC, cost: 1 },
+  KindDef { name: "NAME", arity: 4, exec: q_name, family: FAM_SC, cost: 0 },
+  KindDef { name: "NAME2", arity: 4, exec: q_name2, family: FAM_SC, cost: 1 },
   KindDef { name: "SW", arity: 4, exec: q_sw, family: FAM_SD, cost: 0 },
   KindDef { name: "SW.next", arity: 5, exec: q_sw_next, family: FAM_SD, cost: 0 },
   KindDef { name: "SM.days", arity: 3, exec: q_sm_days, family: FAM_SD, cost: 1 },
